@@ -24,9 +24,12 @@ type Conn struct {
 	N       int
 	MaxBody int
 	Opened  int // connections opened so far (real connection loop only)
-	net     NetOptions
-	ns      *netState
-	remote  net.Addr
+	// BeforeHandler, if set, runs on the parsed request just before the application's handler (direct
+	// transport only): a way to hand the application header bytes that no HTTP parser would let through
+	BeforeHandler func(ctx *fasthttp.RequestCtx)
+	net           NetOptions
+	ns            *netState
+	remote        net.Addr
 }
 
 // Resp is what came back on the wire.
@@ -134,6 +137,9 @@ func (c *Conn) Do(raw []byte) *Resp {
 			ctx.Response.SetStatusCode(fasthttp.StatusBadRequest)
 		}
 	} else {
+		if c.BeforeHandler != nil {
+			c.BeforeHandler(ctx)
+		}
 		c.handler(ctx)
 	}
 	if ctx.IsHead() {
